@@ -10,6 +10,9 @@ pub mod c03;
 pub mod c04;
 pub mod c05;
 pub mod c06;
+pub mod c09;
+pub mod c10;
+pub mod cyc;
 pub mod value;
 
 pub use value::ValueOracle;
@@ -32,12 +35,19 @@ pub fn spec(id: &str) -> Option<PropSpec> {
         "C05" => Some(c05::spec_c05()),
         "C06" => Some(c06::spec_c06()),
         "C07" => Some(c06::spec_c07()),
+        "C09" => Some(c09::spec_c09()),
+        "C10" => Some(c10::spec_c10()),
+        "C11" => Some(c10::spec_c11()),
+        "C12" => Some(cyc::spec_c12()),
+        "C13" => Some(cyc::spec_c13()),
+        "C14" => Some(cyc::spec_c14()),
+        "C15" => Some(cyc::spec_c15()),
         _ => None,
     }
 }
 
 pub fn all_ids() -> Vec<&'static str> {
-    vec!["C01", "C02", "C03", "C04", "C05", "C06", "C07"]
+    vec!["C01", "C02", "C03", "C04", "C05", "C06", "C07", "C09", "C10", "C11", "C12", "C13", "C14", "C15"]
 }
 
 pub(crate) fn viol(rule: &str, step: usize, detail: String) -> Violation {
